@@ -26,16 +26,16 @@ import (
 // ---------------------------------------------------------------- in-memory network with fault injection
 
 type memNet struct {
-	mu       sync.Mutex
-	accept   chan net.Conn
-	closed   chan struct{}
-	refuse   bool // dials fail at once (server unreachable)
-	conns    []*faultConn
-	dials    int
-	onDial   func(n int)
-	holeC2S  bool // applied to connections dialled from now on
-	holeS2C  bool
-	cutAfterEach int64 // every connection dialled from now on is cut after this many client->server bytes
+	mu           sync.Mutex
+	accept       chan net.Conn
+	closed       chan struct{}
+	refuse       bool // dials fail at once (server unreachable)
+	conns        []*faultConn
+	dials        int
+	onDial       func(n int)
+	holeC2S      bool // applied to connections dialled from now on
+	holeS2C      bool
+	cutAfterEach int64         // every connection dialled from now on is cut after this many client->server bytes
 	wsLatency    time.Duration // client->server latency of WebSocket connections dialled from now on (a slow uplink on the new transport)
 }
 
@@ -147,6 +147,7 @@ type faultConn struct {
 	sniffed, isWS  bool
 	line           chan delayed
 	lineClosed     bool
+	cutAt          time.Time // when the connection was cut (zero: never)
 }
 
 type delayed struct {
@@ -162,10 +163,28 @@ func (c *faultConn) setBlackhole(c2s, s2c bool) {
 
 func (c *faultConn) cut() {
 	c.mu.Lock()
+	if !c.isCut {
+		c.cutAt = time.Now()
+	}
 	c.isCut = true
 	c.mu.Unlock()
 	c.Close()
 	c.peer.Close()
+}
+
+// firstCut: the earliest instant at which one of the network's connections was cut (zero time: none was)
+func (n *memNet) firstCut() time.Time {
+	n.mu.Lock()
+	defer n.mu.Unlock()
+	var t time.Time
+	for _, c := range n.conns {
+		c.mu.Lock()
+		if !c.cutAt.IsZero() && (t.IsZero() || c.cutAt.Before(t)) {
+			t = c.cutAt
+		}
+		c.mu.Unlock()
+	}
+	return t
 }
 
 // Close also ends the delay line's forwarder
@@ -334,7 +353,7 @@ var _ = eio.ProtocolVersion
 
 type tapRecord struct {
 	hdr     []byte // the packet's header frame (truncated)
-	conn    int // which parser instance (one per connection)
+	conn    int    // which parser instance (one per connection)
 	typ     parser.PacketType
 	nsp     string
 	id      string // ack id or "-"
@@ -353,8 +372,8 @@ type wireTap struct {
 	mu     sync.Mutex
 	recs   []tapRecord
 	frames []tapFrame // every frame handed to a decoder, in order
-	conns int
-	inner parser.Creator
+	conns  int
+	inner  parser.Creator
 }
 
 func newWireTap() *wireTap {
@@ -385,8 +404,10 @@ type tapParser struct {
 	hdr     []byte
 }
 
-func (p *tapParser) Encode(h *parser.PacketHeader, v any) ([][]byte, error) { return p.inner.Encode(h, v) }
-func (p *tapParser) Reset()                                                { p.inner.Reset(); p.nframes = 0 }
+func (p *tapParser) Encode(h *parser.PacketHeader, v any) ([][]byte, error) {
+	return p.inner.Encode(h, v)
+}
+func (p *tapParser) Reset() { p.inner.Reset(); p.nframes = 0 }
 func (p *tapParser) Add(data []byte, finish parser.Finish) error {
 	p.nframes++
 	hd := data
